@@ -132,6 +132,27 @@ theorem split_roundtrip (ws : List Word) (junk : List Nat)
     splitCommandLine (joinWords ws ++ 0 :: junk) = .done ws := by
   rw [split_spec _ junk h0]; exact congrArg _ (tok_joinWords ws hb hl)
 
+/-- independent characterisation of the quoting rules by what they can express: EVERY argument vector (any
+    NUL-free words, empty words anywhere, backslashes and quotes anywhere) is expressible -- write a blank as
+    `" "`, a quote as `"\""`, every other character as itself, the empty word as `""`, and put a blank behind
+    every word -- and is read back exactly -/
+theorem split_expresses_every_vector (ws : List Word) (junk : List Nat) (h : ∀ w ∈ ws, ∀ c ∈ w, c ≠ 0) :
+    splitCommandLine (joinTerminated ws ++ 0 :: junk) = .done ws := by
+  rw [split_spec _ junk (joinTerminated_nonul ws h)]; exact congrArg _ (tok_joinTerminated ws)
+
+/-- with single blanks only BETWEEN the words (the form the property speaks of) exactly the vectors whose last
+    word is not empty are expressible (mixed quoting: also words ending in a backslash) ... -/
+theorem split_separated_roundtrip (ws : List Word) (junk : List Nat) (h : ∀ w ∈ ws, ∀ c ∈ w, c ≠ 0)
+    (hl : ws.getLast? ≠ some []) : splitCommandLine (joinSeparated ws ++ 0 :: junk) = .done ws := by
+  rw [split_spec _ junk (joinSeparated_nonul ws h)]; exact congrArg _ (tok_joinSeparated ws hl)
+
+-- ... observations (limitations of the quoting rules, not of the proof): without a blank behind it a trailing
+-- empty word is dropped; a fully quoted word that ends in a backslash swallows its closing quote
+example : splitCommandLine (joinSeparated [[97], []] ++ [0]) = .done [[97]] := by decide
+example : splitCommandLine (joinWords [[97, 92], [98]] ++ [0]) = .done [[97, 34, 32, 98]] := by decide
+example : splitCommandLine (joinSeparated [[97, 92], [98]] ++ [0]) = .done [[97, 92], [98]] := by decide
+example : splitCommandLine (joinTerminated [[], [97, 32, 34, 92], []] ++ [0]) = .done [[], [97, 32, 34, 92], []] := by decide
+
 example : splitCommandLine ([101, 32, 34, 97, 92, 98, 34] ++ 0 :: [7]) = .done [[101], [97, 92, 98]] := by decide
 example : splitCommandLine (joinWords [[97, 32, 98], [], [99, 34, 100]] ++ [0]) = .done [[97, 32, 98], [], [99, 34, 100]] := by decide
 
